@@ -26,6 +26,7 @@ const (
 	sigNextEnd   = "memory-iterator-next-past-end-keeps-counting"
 	sigBatchDR   = "memory-batch-deleterange-materialised-at-call-time"
 	sigSnapHas   = "pebble-snapshot-has-missing-key-returns-error"
+	sigBufNil    = "bufferbatch-put-nil-value-acts-as-delete"
 )
 
 type Cfg struct{ NilUb, LowerBound, PrevFix, NextClamp bool }
@@ -136,6 +137,10 @@ func (rn *Runner) Run(ops []Op) (*SeqResult, error) {
 	iterTaint := map[int]string{} // memory: iterator handle -> known class of its bounds (permanent)
 	posTaint := map[int]string{}  // memory: iterator handle -> known class of its position (until First/Seek)
 	iterOrigin := map[int]string{} // live iterator handle -> source it was created from
+	bufBatch := map[int]bool{}     // batch handle -> wrapped in db.BufferBatch
+	bufTaint := map[int]bool{}     // ... and was given Put(key, nil)
+	allTaint := ""                 // known class that applies to every backend from here on
+	nBatches := 0
 	orphan := map[int]bool{}       // iterators whose batch / snapshot was closed under them
 	seqTaint := ""
 	nIters := 0
@@ -168,6 +173,15 @@ func (rn *Runner) Run(ops []Op) (*SeqResult, error) {
 		case "put", "del", "delrange", "bwrite":
 			if !okc {
 				seqTaint, class = sigBatchDR, sigBatchDR
+			}
+		case "newbatch":
+			if o.Wrap == "buffer" && o.Idx {
+				bufBatch[nBatches] = true
+			}
+			nBatches++
+		case "bput":
+			if bufBatch[o.H] && len(o.Val) == 0 && o.NilB {
+				bufTaint[o.H] = true
 			}
 		case "first", "seek":
 			delete(posTaint, o.H)
@@ -221,11 +235,21 @@ func (rn *Runner) Run(ops []Op) (*SeqResult, error) {
 				}
 			}
 		}
+		if o.K == "bwrite" && bufTaint[o.H] {
+			allTaint = sigBufNil
+		}
+		bufAffected := allTaint != ""
+		if o.K == "get" && strings.HasPrefix(o.Src, "b") {
+			var h int
+			fmt.Sscanf(o.Src, "b%d", &h)
+			bufAffected = bufAffected || bufTaint[h]
+		}
 		for bi, b := range bst {
 			out := b.w.Exec(o)
 			sr.Outs[b.w.name] = append(sr.Outs[b.w.name], out)
-			if bi == 0 {
-				// correspondence: Lean Mem model vs real db/memory (always, also outside the contract)
+			if bi == 0 && !bufAffected {
+				// correspondence: Lean Mem model vs real db/memory (always, also outside the contract;
+				// db.BufferBatch is not part of the Mem model, so reads it may have spoilt are left out)
 				sr.Compared++
 				if out != memModel {
 					sr.Mismatches = append(sr.Mismatches, lib.Mismatch{Sig: "mem-model:" + o.K,
@@ -245,8 +269,16 @@ func (rn *Runner) Run(ops []Op) (*SeqResult, error) {
 			if out == spec {
 				continue
 			}
-			sig := ""
-			if bi == 0 {
+			sig := allTaint
+			if o.K == "get" && strings.HasPrefix(o.Src, "b") {
+				var h int
+				fmt.Sscanf(o.Src, "b%d", &h)
+				if bufTaint[h] {
+					sig = sigBufNil
+				}
+			}
+			if sig != "" {
+			} else if bi == 0 {
 				sig = class
 				if sig == "" {
 					sig = seqTaint
@@ -429,6 +461,21 @@ func corpus() [][]Op {
 			Op{K: "scan", Src: "db"},
 			Op{K: "update", Idx: true, Inner: []Op{{K: "put", Key: k(0x05), Val: k(5)}, {K: "del", Key: k(0x05)}, {K: "put", Key: k(0x00), Val: nil}, {K: "has", Key: k(0x05)}}},
 			Op{K: "scan", Src: "db"}),
+		with(Op{K: "newbatch", Idx: true, Wrap: "buffer"}, Op{K: "bput", Key: k(0x00), Val: nil, NilB: true}, Op{K: "bput", Key: k(0x07), Val: nil},
+			Op{K: "bdel", Key: k(0x02)}, Op{K: "get", Src: "b0", Key: k(0x00)}, Op{K: "get", Src: "b0", Key: k(0x07)}, Op{K: "get", Src: "b0", Key: k(0x02)},
+			Op{K: "bwrite"}, Op{K: "scan", Src: "db"}),
+		with(Op{K: "newbatch", Idx: true, Wrap: "sync"}, Op{K: "bput", Key: k(0x00), Val: nil, NilB: true}, Op{K: "bdelrange", Key: k(0x01), End: k(0x03)},
+			Op{K: "scan", Src: "b0", Key: nil}, Op{K: "has", Src: "b0", Key: k(0x02)}, Op{K: "bsize"}, Op{K: "bwrite"}, Op{K: "scan", Src: "db"}),
+		// batches whose Size() is 0 although they are not empty: empty key with empty value, delete of the
+		// empty key, DeleteRange only
+		with(Op{K: "update", Idx: false, Inner: []Op{{K: "del", Key: nil}}}, Op{K: "has", Src: "db", Key: nil},
+			Op{K: "update", Idx: false, Inner: []Op{{K: "put", Key: nil, Val: nil}}}, Op{K: "has", Src: "db", Key: nil},
+			Op{K: "update", Idx: true, Inner: []Op{{K: "del", Key: nil, NilB: true}}}, Op{K: "has", Src: "db", Key: nil},
+			Op{K: "update", Idx: true, Inner: []Op{{K: "put", Key: nil, Val: nil, NilB: true}}}, Op{K: "has", Src: "db", Key: nil},
+			Op{K: "update", Idx: false, Inner: []Op{{K: "delrange", Key: k(0x01), End: k(0x03)}}}, Op{K: "scan", Src: "db"},
+			Op{K: "update", Idx: true, Inner: []Op{{K: "delrange", Key: nil, End: k(0xff, 0xff, 0xff)}}}, Op{K: "scan", Src: "db"},
+			Op{K: "newbatch"}, Op{K: "bput", Key: nil, Val: nil}, Op{K: "bsize"}, Op{K: "bwrite"}, Op{K: "has", Src: "db", Key: nil},
+			Op{K: "newbatch", Idx: true}, Op{K: "bdel", H: 1, Key: nil}, Op{K: "bsize", H: 1}, Op{K: "bwrite", H: 1}, Op{K: "has", Src: "db", Key: nil}),
 		with(Op{K: "newbatch", Idx: true}, Op{K: "close"}, Op{K: "get", Src: "db", Key: k(0)}, Op{K: "put", Key: k(0), Val: k(0)},
 			Op{K: "bput", Key: k(1), Val: k(1)}, Op{K: "bwrite"}, Op{K: "update", Idx: true, Inner: []Op{{K: "put", Key: k(1), Val: k(1)}}},
 			Op{K: "snap"}, Op{K: "close"}),
@@ -500,6 +547,12 @@ func fixOps(ops []Op) []Op {
 
 // ---- main -------------------------------------------------------------------------------------
 
+// finish removes the scratch root (only succeeds when it is empty) and writes the result.
+func finish(f lib.Flags, res *lib.Result) {
+	os.Remove(scratchRoot)
+	lib.Finish(f, res)
+}
+
 func main() {
 	f := lib.ParseFlags()
 	res := lib.NewResult("op sequences of the db.KeyValueStore interface over a 16-key alphabet (empty key, keys extending keys, " +
@@ -508,11 +561,10 @@ func main() {
 	// lib.NewRNG(s) and lib.NewRNG(s+1) are the same SplitMix stream shifted by one: scramble the seed
 	// first so that different --seed values give unrelated sequences
 	r := lib.NewRNG(lib.NewRNG(f.Seed*0x2545F4914F6CDD1D + 0x9E3779B9).Uint64() ^ f.Seed<<32)
-	defer os.Remove(scratchRoot) // only succeeds when empty
 	drv, err := lib.StartDriver(f.Driver)
 	if err != nil {
 		res.Note("driver: %v", err)
-		lib.Finish(f, res)
+		finish(f, res)
 	}
 	defer drv.Close()
 
@@ -524,7 +576,7 @@ func main() {
 	res.Note("db/memory variant probed on the real code: %+v", cfg)
 	if a, err := drv.Ask(cfg.Line()); err != nil || a != "ok" {
 		res.Note("driver rejected cfg: %v %q", err, a)
-		lib.Finish(f, res)
+		finish(f, res)
 	}
 	rn := &Runner{drv: drv, cfg: cfg}
 
@@ -558,10 +610,10 @@ func main() {
 		}
 		if err != nil || len(wrap.Replay.Ops) == 0 {
 			res.Note("cannot read replay %s: %v", f.Replay, err)
-			lib.Finish(f, res)
+			finish(f, res)
 		}
 		runOne(wrap.Replay.Ops, "replay")
-		lib.Finish(f, res)
+		finish(f, res)
 	}
 
 	// C. directed corpus, exhaustive small spaces
@@ -597,7 +649,7 @@ func main() {
 	} else {
 		concurrencySmoke(r, res)
 	}
-	lib.Finish(f, res)
+	finish(f, res)
 }
 
 func genKey(r *lib.RNG) []byte {
